@@ -28,6 +28,12 @@ type Solver struct {
 	args    []string
 	TimeoutMS int
 	rnApps  [][]*Term // per level RN applications (for monotonicity axioms)
+	lines   [][]string // per level: every definition/assertion sent (for standalone re-solving)
+	Fallbacks []string // extra solver command lines tried (one-shot) when the primary answers unknown
+	FallbackUsed map[string]int
+	FallbackTimeoutS int
+	fbModel  map[string]string
+	wantVars []string
 }
 
 func NewSolver(bin string, timeoutMS int, logPath string) (*Solver, error) {
@@ -69,6 +75,7 @@ func (s *Solver) start() error {
 	s.emitted = map[int]int{}
 	s.stack = [][]int{nil}
 	s.rnApps = [][]*Term{nil}
+	s.lines = [][]string{nil}
 	s.send("(set-option :produce-models true)")
 	if !strings.Contains(s.bin, "cvc5") {
 		s.send(fmt.Sprintf("(set-option :timeout %d)", s.TimeoutMS))
@@ -88,6 +95,9 @@ func (s *Solver) Close() {
 }
 
 func (s *Solver) send(line string) {
+	if strings.HasPrefix(line, "(declare-") || strings.HasPrefix(line, "(define-") || strings.HasPrefix(line, "(assert") {
+		s.lines[s.level] = append(s.lines[s.level], line)
+	}
 	if s.log != nil {
 		fmt.Fprintln(s.log, line)
 	}
@@ -100,6 +110,7 @@ func (s *Solver) Push() {
 	s.level++
 	s.stack = append(s.stack, nil)
 	s.rnApps = append(s.rnApps, nil)
+	s.lines = append(s.lines, nil)
 }
 
 func (s *Solver) Pop() {
@@ -109,6 +120,7 @@ func (s *Solver) Pop() {
 	}
 	s.stack = s.stack[:s.level]
 	s.rnApps = s.rnApps[:s.level]
+	s.lines = s.lines[:s.level]
 	s.level--
 }
 
@@ -164,7 +176,7 @@ var rawVarRe = regexp.MustCompile(`in_[A-Za-z0-9_]+`)
 var (
 	ulp53    = new(big.Rat).SetFrac(big.NewInt(1), new(big.Int).Lsh(big.NewInt(1), 53))
 	two53    = new(big.Rat).SetInt(new(big.Int).Lsh(big.NewInt(1), 53))
-	tinyAbs  = new(big.Rat).SetFrac(big.NewInt(1), new(big.Int).Lsh(big.NewInt(1), 1074))
+	tinyAbs  = new(big.Rat).SetFrac(big.NewInt(1), new(big.Int).Lsh(big.NewInt(1), 200)) // >= 2^-1075 (subnormal spacing): sound, smaller literal
 )
 
 // rnAxioms asserts the IEEE-754 round-to-nearest facts for one application RN(e):
@@ -182,8 +194,6 @@ func (s *Solver) rnAxioms(t *Term) {
 	s.send(fmt.Sprintf("(assert (=> (<= %s 0.0) (<= %s 0.0)))", e, r))
 	if t.Args[0].IsIntReal {
 		s.send(fmt.Sprintf("(assert (=> (and (<= %s %s) (>= %s (- %s))) (= %s %s)))", e, ratSMT(two53, SReal), e, ratSMT(two53, SReal), r, e))
-	} else {
-		s.send(fmt.Sprintf("(assert (=> (and (is_int %s) (<= %s %s) (>= %s (- %s))) (= %s %s)))", e, e, ratSMT(two53, SReal), e, ratSMT(two53, SReal), r, e))
 	}
 	for _, lvl := range s.rnApps {
 		for _, o := range lvl {
@@ -264,8 +274,79 @@ func (s *Solver) Check() SatRes {
 	if sawErr {
 		res = Unknown
 	}
-	s.Time += time.Since(t0)
+	s.fbModel = nil
+	if res == Unknown && len(s.Fallbacks) > 0 {
+		res, s.fbModel = s.fallback(s.wantVars)
+	}
+	d := time.Since(t0)
+	s.Time += d
+	if s.log != nil {
+		fmt.Fprintf(s.log, "; -> %s in %.3fs\n", res, d.Seconds())
+	}
 	return res
+}
+
+// fallback re-decides the current assertion stack with one-shot runs of the other installed solvers.
+func (s *Solver) fallback(names []string) (SatRes, map[string]string) {
+	var sb strings.Builder
+	sb.WriteString("(set-option :produce-models true)\n(set-logic ALL)\n")
+	for _, lvl := range s.lines {
+		for _, l := range lvl {
+			sb.WriteString(l)
+			sb.WriteByte('\n')
+		}
+	}
+	sb.WriteString("(check-sat)\n")
+	if len(names) > 0 {
+		sb.WriteString("(get-value (" + strings.Join(names, " ") + "))\n")
+	}
+	f, err := os.CreateTemp("", "gosymex-fb-*.smt2")
+	if err != nil {
+		return Unknown, nil
+	}
+	if os.Getenv("GOSYMEX_KEEP_FB") == "" {
+		defer os.Remove(f.Name())
+	}
+	f.WriteString(sb.String())
+	f.Close()
+	to := s.FallbackTimeoutS
+	if to <= 0 {
+		to = 30
+	}
+	for _, fb := range s.Fallbacks {
+		parts := strings.Fields(fb)
+		args := append([]string{fmt.Sprint(to), parts[0]}, parts[1:]...)
+		args = append(args, f.Name())
+		out, _ := exec.Command("timeout", args...).CombinedOutput()
+		txt := string(out)
+		lines := strings.Split(txt, "\n")
+	scan:
+		for i, line := range lines {
+			if strings.HasPrefix(strings.TrimSpace(line), "(error") {
+				break scan // an error before the verdict: inconclusive for this solver
+			}
+			switch strings.TrimSpace(line) {
+			case "unsat":
+				s.noteFallback(parts[0])
+				return Unsat, nil
+			case "sat":
+				s.noteFallback(parts[0])
+				var m map[string]string
+				if len(names) > 0 {
+					m = parseModel(strings.Join(lines[i+1:], " "))
+				}
+				return Sat, m
+			}
+		}
+	}
+	return Unknown, nil
+}
+
+func (s *Solver) noteFallback(name string) {
+	if s.FallbackUsed == nil {
+		s.FallbackUsed = map[string]int{}
+	}
+	s.FallbackUsed[name]++
 }
 
 // CheckWith checks satisfiability of the stack plus extra terms (scoped).
@@ -291,9 +372,14 @@ func (s *Solver) ModelWith(vars []*Term, extra ...*Term) (SatRes, map[string]str
 	for _, v := range vars {
 		names = append(names, s.ref(v))
 	}
+	s.wantVars = names
 	r := s.Check()
+	s.wantVars = nil
 	if r != Sat || len(vars) == 0 {
 		return r, nil
+	}
+	if s.fbModel != nil {
+		return r, s.fbModel
 	}
 	s.send("(get-value (" + strings.Join(names, " ") + "))")
 	s.send("(echo \"<<done>>\")")
